@@ -342,7 +342,7 @@ func main() {
 			var out jobOut
 			bad := 0
 			for _, cs := range j.Cases {
-				if bad >= 3 {
+				if bad >= 2 {
 					// enough failures in this job: do not spend the hang limit on every remaining case
 					out.Outs = append(out.Outs, caseOut{Res: Result{HarnessErr: "skipped"}})
 					continue
@@ -572,12 +572,29 @@ func main() {
 			}
 		}
 	}
+	// part 4 (report only): PAUSE / TEARDOWN issued right after the six packets, without the delivery barrier
+	n4 := 0
+	if part("undrained") {
+		for _, cfg := range cfgs {
+			if reliable(cfg.Rd) && (cfg.Dir == dirStream || reliable(cfg.Pub)) {
+				c := cfg
+				c.Rd2 = ""
+				for _, sc := range []string{"jPr", "jT"} {
+					pos := [][]int{[]int{0, 6, 6}[:len(sc)]}
+					cases = append(cases, Case{Cfg: c, Kind: "place", StartSeq: 0, Gen: &Gen{Scripts: []string{sc}, Pos: pos}})
+					n4++
+				}
+			}
+		}
+	}
+	n3 += n4 // run with the single-case jobs
+	run.Set("undrained_leave_cases", n4)
 	run.Set("configurations", len(cfgs))
 	run.Set("packet_words", nSeq)
 	run.Set("word_batches", nBatch)
 	run.Set("placement_cases_one_reader", n1)
 	run.Set("placement_cases_two_readers", n2)
-	run.Set("srtp_wrap_cases", n3)
+	run.Set("srtp_wrap_cases", n3-n4)
 
 	agg := map[string]int64{}
 	perCfg := map[string]int64{}
@@ -590,7 +607,26 @@ func main() {
 		fmt.Sscan(v, &nw)
 	}
 	// runPhase farms the given groups of case indices out to the workers and judges the results.
+	stopped := false
+	var runRound func(jobCases [][]int)
+	// runPhase runs the job groups in rounds (16, 64, rest) and stops early - recorded as a cap - once a dozen
+	// violations are in: a change that breaks delivery altogether would otherwise spend the hang limit on
+	// thousands of cases
 	runPhase := func(jobCases [][]int) {
+		for _, n := range []int{16, 64, len(jobCases)} {
+			if len(jobCases) == 0 || stopped {
+				return
+			}
+			n = min(n, len(jobCases))
+			runRound(jobCases[:n])
+			jobCases = jobCases[n:]
+			if run.Violations() >= 12 && len(jobCases) > 0 {
+				stopped = true
+				run.Cap(fmt.Sprintf("stopped after %d violations; %d worker jobs not run", run.Violations(), len(jobCases)))
+			}
+		}
+	}
+	runRound = func(jobCases [][]int) {
 		var jobs []any
 		for _, idx := range jobCases {
 			var j job
@@ -622,7 +658,7 @@ func main() {
 				cs := cases[idx[oi]]
 				res := o.Res
 				if res.HarnessErr == "skipped" {
-					run.Cap("cases skipped in a worker job after 3 failing cases")
+					run.Cap("cases skipped in a worker job after 2 failing cases")
 					continue
 				}
 				words := int64(1)
@@ -655,10 +691,12 @@ func main() {
 				agg["missing_excused_by_stream_write_error"] += int64(res.Excused)
 				agg["received_but_written_outside_play_window"] += int64(res.OldPackets)
 				agg["http_tunnel_handshake_retries"] += int64(res.TunnelRetries)
-			if cs.Cfg.Dir == dirStream {
-				agg["received_but_written_outside_play_window_stream_dir"] += int64(res.OldPackets)
-			}
-			agg["tap_frames_checked"] += int64(res.TapFrames)
+				agg["undrained_leave_packets_at_stake"] += int64(res.UndrainedTotal)
+				agg["undrained_leave_packets_lost_reported_not_demanded"] += int64(res.UndrainedLost)
+				if cs.Cfg.Dir == dirStream {
+					agg["received_but_written_outside_play_window_stream_dir"] += int64(res.OldPackets)
+				}
+				agg["tap_frames_checked"] += int64(res.TapFrames)
 				agg["ssrc_comparisons"] += int64(res.SSRCChecked)
 				if res.TapSkipped != "" {
 					agg["tap_skipped_cases"]++
@@ -736,7 +774,7 @@ func main() {
 	units := float64(n1) + float64(nSeq)/4 + 1
 	perCase := time.Since(t1).Seconds() / units
 	done2 := 0
-	for ci := 0; ci < len(place2Cfg); ci++ {
+	for ci := 0; ci < len(place2Cfg) && !stopped; ci++ {
 		lo, hi := place2Cfg[ci][0], place2Cfg[ci][1]
 		est := time.Duration(float64(hi-lo) * perCase * float64(time.Second))
 		if v := os.Getenv("C01_NOBUDGET"); v == "" && run.Elapsed()+est > budget {
